@@ -5,6 +5,8 @@
 package main
 
 import (
+	"context"
+	"crypto/tls"
 	"fmt"
 	"net"
 	"sort"
@@ -15,8 +17,10 @@ import (
 
 	v1 "github.com/fatedier/frp/pkg/config/v1"
 	"github.com/fatedier/frp/pkg/msg"
+	netpkg "github.com/fatedier/frp/pkg/util/net"
 	"github.com/fatedier/frp/pkg/util/util"
 	"github.com/fatedier/frp/server/proxy"
+	quic "github.com/quic-go/quic-go"
 	"verifharness/hx"
 )
 
@@ -43,6 +47,8 @@ type world struct {
 	stcpName []int       // attempt -> name index for stcp attempts (-1: tcp)
 	stcpCur  map[int]int // name -> the stcp attempt that last succeeded under it
 	maxPorts int         // serverCfg.MaxPortsPerClient of this case (0 = unlimited)
+	quic     bool        // the peers of this case speak QUIC (control connection = a quic stream)
+	quicPort int
 	items    []string
 	outs     []outRec
 	fails    []map[string]any
@@ -55,12 +61,63 @@ type outRec struct {
 	text string
 }
 
-func newWorld(name string, maxPorts int) (*world, error) {
-	s, err := hx.StartServer(bindAddr, func(c *v1.ServerConfig) { c.MaxPortsPerClient = int64(maxPorts) })
+func newWorld(name string, maxPorts int) (*world, error) { return newWorldT(name, maxPorts, false) }
+
+func newWorldT(name string, maxPorts int, useQUIC bool) (*world, error) {
+	qp := 0
+	if useQUIC {
+		qp = hx.FreeUDPPort(bindAddr)
+	}
+	s, err := hx.StartServer(bindAddr, func(c *v1.ServerConfig) {
+		c.MaxPortsPerClient = int64(maxPorts)
+		c.QUICBindPort = qp
+	})
 	if err != nil {
 		return nil, err
 	}
-	return &world{s: s, stored: map[int]int{}, kinds: map[string]int{}, caseName: name, maxPorts: maxPorts, stcpCur: map[int]int{}}, nil
+	return &world{s: s, stored: map[int]int{}, kinds: map[string]int{}, caseName: name, maxPorts: maxPorts, stcpCur: map[int]int{},
+		quic: useQUIC, quicPort: qp}, nil
+}
+
+// quicLogin: the scripted login of hx.Server.Login over a QUIC stream (what frpc does with transport.protocol = "quic")
+func (w *world) quicLogin(rid, tag string) (*hx.Peer, *msg.LoginResp, error) {
+	tc := &tls.Config{InsecureSkipVerify: true, NextProtos: []string{"frp"}}
+	ctx, cancel := context.WithTimeout(context.Background(), 5*time.Second)
+	defer cancel()
+	qc, err := quic.DialAddr(ctx, net.JoinHostPort(bindAddr, fmt.Sprint(w.quicPort)), tc, &quic.Config{MaxIdleTimeout: 30 * time.Second, KeepAlivePeriod: 5 * time.Second})
+	if err != nil {
+		return nil, nil, err
+	}
+	st, err := qc.OpenStreamSync(ctx)
+	if err != nil {
+		return nil, nil, err
+	}
+	conn := netpkg.QuicStreamToNetConn(st, qc)
+	ts := time.Now().Unix()
+	lm := &msg.Login{Version: "0.61.0", Hostname: tag, Os: "linux", Arch: "amd64", PrivilegeKey: util.GetAuthKey(hx.DefaultToken, ts),
+		Timestamp: ts, RunID: rid, Metas: map[string]string{}}
+	if err := msg.WriteMsg(conn, lm); err != nil {
+		conn.Close()
+		return nil, nil, err
+	}
+	_ = conn.SetReadDeadline(time.Now().Add(5 * time.Second))
+	var resp msg.LoginResp
+	if err := msg.ReadMsgInto(conn, &resp); err != nil {
+		conn.Close()
+		_ = qc.CloseWithError(0, "")
+		return nil, nil, err
+	}
+	_ = conn.SetReadDeadline(time.Time{})
+	if resp.Error != "" {
+		conn.Close()
+		return nil, &resp, nil
+	}
+	rw, err := netpkg.NewCryptoReadWriter(conn, []byte(hx.DefaultToken))
+	if err != nil {
+		conn.Close()
+		return nil, &resp, err
+	}
+	return &hx.Peer{S: w.s, Conn: conn, RW: rw, RunID: resp.RunID, Token: hx.DefaultToken}, &resp, nil
 }
 
 const stcpKey = "c12-secret"
@@ -251,7 +308,14 @@ func (w *world) startLogin(rid string) *pendingLogin {
 	w.peerRid = append(w.peerRid, -1)
 	pl := &pendingLogin{sid: sid, rid: rid, resp: make(chan loginRes, 1)}
 	go func() {
-		p, r, err := w.s.Login(hx.LoginOpts{RunID: rid, Mutate: func(l *msg.Login) { l.Hostname = tagOf(sid) }})
+		var p *hx.Peer
+		var r *msg.LoginResp
+		var err error
+		if w.quic {
+			p, r, err = w.quicLogin(rid, tagOf(sid))
+		} else {
+			p, r, err = w.s.Login(hx.LoginOpts{RunID: rid, Mutate: func(l *msg.Login) { l.Hostname = tagOf(sid) }})
+		}
 		pl.resp <- loginRes{p, r, err}
 	}()
 	return pl
@@ -513,6 +577,16 @@ func seqHistory(g *hx.Gen, w *world) {
 			if len(w.peers) < 9 {
 				w.seqLogin(rid)
 			}
+		case r < 33:
+			// a login that does not know the token but presents an issued run id: refused, and nobody is disturbed
+			rid := w.ridNames[g.Intn(len(w.ridNames))]
+			p, resp, err := w.s.Login(hx.LoginOpts{RunID: rid, WrongKey: true})
+			if p != nil || (err == nil && (resp == nil || resp.Error == "")) {
+				w.fail("monitor:unauthenticated-login-accepted", "a login with a wrong key was accepted")
+			}
+			time.Sleep(20 * time.Millisecond)
+			w.kind("login-wrong-key-with-issued-runid")
+			w.observe()
 		case r < 70:
 			sid := live[g.Intn(len(live))]
 			name := g.Intn(3)
@@ -542,6 +616,7 @@ func seqHistory(g *hx.Gen, w *world) {
 type directed struct {
 	variant, quota int
 	stcp           bool
+	quic           bool
 }
 
 var directedCases = func() []directed {
@@ -549,10 +624,12 @@ var directedCases = func() []directed {
 	for v := 0; v < 3; v++ {
 		for _, q := range []int{0, 3} {
 			for _, st := range []bool{false, true} {
-				l = append(l, directed{v, q, st})
+				l = append(l, directed{v, q, st, false})
 			}
 		}
 	}
+	// the same over QUIC control connections: the former owner disconnects / is replaced
+	l = append(l, directed{1, 0, false, true}, directed{2, 0, false, true})
 	return l
 }()
 
@@ -704,7 +781,7 @@ func runSessions(cfg *hx.RunCfg) error {
 		} else if !gated && g.Intn(5) < 2 {
 			quota = 1 + g.Intn(3)
 		}
-		w, err := newWorld(name, quota)
+		w, err := newWorldT(name, quota, isDirected && directedCases[di].quic)
 		if err != nil {
 			return err
 		}
